@@ -2,6 +2,7 @@ package mon
 
 import (
 	"bytes"
+	"math"
 
 	"fmt"
 	"github.com/wizenheimer/comet"
@@ -194,6 +195,75 @@ func runC07(r *ev.Run) {
 		}
 		r.Count("states:"+kind, 1)
 		r.Eval(nonEmpty, ev.Digest(kind, st.desc, len(data), ci))
+	})
+	// large states: length fields beyond the usual pre-allocation caps / block sizes (2^14 vectors and more)
+	r.Cases("large", r.Pick(2, 6), func(ci int, rng *rand.Rand) {
+		n := []int{1<<14 + 100, 1<<15 + 3, 1<<16 + 1, 20000, 1<<14 + 1, 70000}[ci%6]
+		dim := 2 + ci%2
+		metric := allMetrics[ci%3]
+		src, err := comet.NewFlatIndex(dim, metric)
+		if err != nil {
+			r.ViolationAt("large", ci, "ser.setup", err.Error(), nil)
+			return
+		}
+		rep := func(sig, what string) {
+			r.ViolationAt("large", ci, sig, fmt.Sprintf("flat %s dim=%d n=%d: %s", metric, dim, n, what), nil)
+		}
+		for i := 0; i < n; i++ {
+			v := make([]float32, dim)
+			for j := range v {
+				v[j] = float32(rng.NormFloat64())
+			}
+			v[0] += 0.01
+			if err := src.Add(*comet.NewVectorNodeWithID(uint32(i+1), v)); err != nil {
+				rep("ser.flat.add-error", err.Error())
+				return
+			}
+		}
+		for i := 0; i < 50; i++ {
+			src.Remove(*comet.NewVectorNodeWithID(uint32(1+rng.IntN(n)), nil))
+		}
+		var buf bytes.Buffer
+		nw, err := src.WriteTo(&buf)
+		if err != nil || nw != int64(buf.Len()) {
+			rep("ser.flat.write-count", fmt.Sprintf("WriteTo returned %d, %v for %d bytes", nw, err, buf.Len()))
+			return
+		}
+		dst, _ := comet.NewFlatIndex(dim, metric)
+		full := append(append([]byte(nil), buf.Bytes()...), sentinel...)
+		rd := bytes.NewReader(full)
+		nr, err := dst.ReadFrom(rd)
+		if err != nil {
+			rep("ser.flat.read-error", "ReadFrom of a valid large stream: "+err.Error())
+			return
+		}
+		if nr != int64(buf.Len()) {
+			rep("ser.flat.read-count", fmt.Sprintf("ReadFrom returned %d for a %d-byte stream", nr, buf.Len()))
+		}
+		if rest, _ := io.ReadAll(rd); !bytes.Equal(rest, sentinel) {
+			rep("ser.flat.consumption", fmt.Sprintf("ReadFrom left %d bytes (want exactly the 8-byte sentinel)", len(rest)))
+		}
+		for t := 0; t < 4; t++ {
+			q := make([]float32, dim)
+			for j := range q {
+				q[j] = float32(rng.NormFloat64())
+			}
+			q[0] += 0.5
+			a, e1 := src.NewSearch().WithQuery(cloneF32(q)).WithK(0).Execute()
+			b, e2 := dst.NewSearch().WithQuery(cloneF32(q)).WithK(0).Execute()
+			if e1 != nil || e2 != nil || len(a) != len(b) {
+				rep("ser.flat.answers-differ", fmt.Sprintf("complete listing: source %d results / %v, reloaded %d / %v", len(a), e1, len(b), e2))
+				break
+			}
+			for i := range a {
+				if math.Float32bits(a[i].GetScore()) != math.Float32bits(b[i].GetScore()) {
+					rep("ser.flat.answers-differ", fmt.Sprintf("rank %d: source score %g, reloaded %g", i, a[i].GetScore(), b[i].GetScore()))
+					break
+				}
+			}
+		}
+		r.Count("roundtrips:large-flat", 1)
+		r.Eval(true, ev.Digest("large", n, dim, metric))
 	})
 }
 
